@@ -13,6 +13,7 @@ Check       real mapped classes on in-memory SQLite (PickleType / JSON columns),
             every operation.
 """
 import gc
+import itertools
 import json
 import os
 import pickle
@@ -312,8 +313,10 @@ class Runner:
         self.model_ops = []
         self.obs = []
         self.violations = []  # (oracle-kind, detail, extra)
+        self.model_frozen = False
         self.invalid_vals = []  # value objects whose changed() aborted with InvalidRequestError
         self.guard_log = {}  # id(value) -> (value, first violated guard of the theorem)
+        self.parent_guard = {}  # parent -> guard violated by a call on a value it holds / remembers
         self.nother = 0
 
     # ------------------------------------------------------------------ observation
@@ -382,6 +385,8 @@ class Runner:
             if loaded and m != rows[p]:
                 self.violations.append(("stored-ne-memory", "%s: parent %d in-memory %r but row holds %r" % (where, p, m, rows[p]), {"p": p}))
                 return False
+            if loaded:
+                self.parent_guard.pop(p, None)  # verified in sync
         return True
 
     def pre_flush_snapshot(self):
@@ -395,7 +400,7 @@ class Runner:
             for obj in (cur, orig):
                 if id(obj) in self.guard_log and self.guard_log[id(obj)][0] is obj:
                     guard = guard or self.guard_log[id(obj)][1]
-            snap.append({"guard": guard})
+            snap.append({"guard": guard or self.parent_guard.get(p)})
         return snap
 
     def do_flush(self, where, commit=False):
@@ -444,6 +449,14 @@ class Runner:
                 broken_guards = ["partial-mutation-on-exception:%s.%s" % (self.kind, op["m"])] + broken_guards
             if broken_guards:
                 self.guard_log.setdefault(id(v), (v, broken_guards[0]))
+                # sticky per parent: an autoflush hidden inside a later attribute access may already
+                # have skipped the UPDATE and cleared committed_state before an explicit flush is checked
+                for q in range(len(self.objs)):
+                    if self.objs[q] is None:
+                        continue
+                    stq = self.state(q)
+                    if stq.dict.get("data", None) is v or stq.committed_state.get("data", None) is v:
+                        self.parent_guard.setdefault(q, broken_guards[0])
         # O2: a content-changing call marks every parent holding the value as modified
         if after != before and outcome == "ok":
             for p in holders:
@@ -568,11 +581,52 @@ class Runner:
             gc.collect()
             self.objs[p] = self.sess.get(self.cls, p + 1)
             mop = "reget:%d" % p
+        elif k in ("bulkpk", "updw", "popex", "merge", "refq"):
+            # the value is REPLACED by ORM machinery, not by a user assignment (oracle only: the
+            # Lean model stops here, the direct oracle continues)
+            sa = self.sa
+            p = op.get("p", 0)
+            if k == "bulkpk":
+                self.sess.execute(sa.update(self.cls), [{"id": p + 1, "data": to_py(self.kind, op["c"])}])
+            elif k == "updw":
+                if op["sync"] != "fetch":
+                    # the evaluator cannot decide `id == pk` for an object whose id is expired
+                    for q in range(len(self.objs)):
+                        stq = self.state(q)
+                        if q != p and "id" not in stq.dict and "data" in stq.dict:
+                            self.parent_guard.setdefault(q, "update-evaluate-applies-to-partially-expired-object")
+                self.sess.execute(
+                    sa.update(self.cls).where(self.cls.id == p + 1).values(data=to_py(self.kind, op["c"])).execution_options(synchronize_session=op["sync"])
+                )
+            elif k == "popex":
+                self.sess.execute(sa.select(self.cls).execution_options(populate_existing=True)).scalars().all()
+            elif k == "refq":
+                self.sess.execute(sa.select(self.cls).where(self.cls.id == p + 1)).scalars().all()
+            else:
+                self.objs[p] = self.sess.merge(self.cls(id=p + 1, data=to_py(self.kind, op["c"])))
+            self.model_frozen = True
+            self.check_wrapped("after %s" % json.dumps(op))
+            return "ok"
         else:
             raise ValueError(op)
-        self.model_ops.append(mop)
-        self.obs.append(outcome + "/" + self.observe())
+        if not self.model_frozen:
+            self.model_ops.append(mop)
+            self.obs.append(outcome + "/" + self.observe())
         return outcome
+
+    def check_wrapped(self, where):
+        """every loaded non-None value of the attribute is a Mutable linked to its parent"""
+        for p in range(len(self.objs)):
+            st = self.state(p)
+            v = st.dict.get("data", None)
+            if v is None:
+                continue
+            if not isinstance(v, self.mcls):
+                self.violations.append(("value-not-mutable", "%s: parent %d holds a plain %s: in-place changes cannot be tracked" % (where, p, type(v).__name__), {"p": p}))
+                return
+            if st not in v._parents:
+                self.violations.append(("value-not-linked", "%s: the Mutable value of parent %d is not linked to it (_parents)" % (where, p), {"p": p}))
+                return
 
     def finish(self):
         """end of sequence: flush and compare, then commit and reload through the ORM"""
@@ -839,10 +893,12 @@ def drive(rng, case):
             op = {"op": "ref", "p": p, "attr": rng.random() < 0.5}
         elif c < 0.95:
             op = {"op": "refo", "p": p}
-        elif c < 0.98:
+        elif c < 0.975:
             op = {"op": "pik", "p": p}
-        else:
+        elif c < 0.985:
             op = {"op": "reget", "p": p}
+        else:
+            op = orm_replace_op(rng, R, p)
         if op is None:
             continue
         if op["op"] == "hold":
@@ -854,6 +910,15 @@ def drive(rng, case):
         R.step(op)
     R.finish()
     return R
+
+
+def orm_replace_op(rng, R, p):
+    k = rng.choice(["bulkpk", "bulkpk", "updw", "updw", "popex", "merge", "refq"])
+    if k == "bulkpk" or k == "merge":
+        return {"op": k, "p": p, "c": rand_content(rng, R.kind)}
+    if k == "updw":
+        return {"op": "updw", "p": p, "c": rand_content(rng, R.kind), "sync": rng.choice(["evaluate", "fetch", "auto"])}
+    return {"op": k, "p": p}
 
 
 def base_copy(kind, v):
@@ -1320,6 +1385,31 @@ def directed_cases(rows_tbl):
                            "ops": pre + [{"op": "mut", "p": 0, "m": m, "args": args}, {"op": "flush"}]}
 
 
+def orm_replaced_cases():
+    """the value of a loaded, unmodified attribute is replaced by ORM machinery, then mutated in
+    place, then flushed"""
+    init = {"list": [3, 1, 2], "dict": [0, 1, 1, 2], "set": [1, 2, 3]}
+    new = {"list": [5, 5], "dict": [2, 4], "set": [4, 6]}
+    mut = {"list": ("append", [4]), "dict": ("__setitem__", [{"K": 5}, 1]), "set": ("add", [7])}
+    for kind in KINDS:
+        for coltype in COLTYPES[kind]:
+            for af in (True, False):
+                for rep in (
+                    {"op": "bulkpk", "p": 0, "c": new[kind]},
+                    {"op": "updw", "p": 0, "c": new[kind], "sync": "evaluate"},
+                    {"op": "updw", "p": 0, "c": new[kind], "sync": "fetch"},
+                    {"op": "ref", "p": 0},
+                    {"op": "ref", "p": 0, "attr": True},
+                    {"op": "popex"},
+                    {"op": "merge", "p": 0, "c": new[kind]},
+                    {"op": "refq", "p": 0},
+                ):
+                    m, args = mut[kind]
+                    yield {"kind": kind, "coltype": coltype, "af": af, "rows": [init[kind], init[kind]], "stream": "directed",
+                           "ops": [{"op": "acc", "p": 0}, {"op": "acc", "p": 1}, rep, {"op": "mut", "p": 0, "m": m, "args": args}, {"op": "flush"},
+                                   {"op": "mut", "p": 0, "m": m, "args": args}, {"op": "commit"}]}
+
+
 # the witness sequences of Props/C49.lean *_counterexample theorems
 WITNESSES = {
     "partial_exception_counterexample": {
@@ -1365,7 +1455,7 @@ def run(ctx, deep=False):
         ctx.count("table:%s rows" % kind)
         if overridden != (m in mcls.__dict__):
             ctx.obligation("table row %s.%s overridden flag" % (kind, m), False, "translator disagrees with class __dict__")
-    for case in directed_cases(None):
+    for case in itertools.chain(directed_cases(None), orm_replaced_cases()):
         R = replay_case(case)
         try:
             ctx.case(case, nontrivial=True)
